@@ -526,6 +526,9 @@ def step (ss : Slots) (line : String) : String × Slots :=
       | _, .src .. => ("unsupported", ss)
       | a, v => if a.sameKind v then ("ok", setSlot ss d v) else ("unsupported", ss)
     | _, _ => ("bad-op", ss)
+  | ["burn", _, _] =>
+    -- very long histories are run on the real code only (panic-freedom); the model does not follow them
+    ("ok", ss)
   | ["race", _, _, _, _] =>
     -- shared-scratch detector of the harness (real code only): in the model instances share nothing by construction
     ("ok", ss)
